@@ -263,6 +263,37 @@ theorem exPass_wf : exPass.wf := by
 example : readBIT (encode [exPass]) = .ok (expectedFrom 0 [exPass]) :=
   bit_roundtrip [exPass] (by intro p hp; simp at hp; subst hp; exact exPass_wf) (by decide +kernel)
 
+/-- the same file without the final (second) type-1 marker: the reader stops at the end of the data -/
+def encodeNoFinal (ps : List PassC) : List Nat := layout 0 0 (ps.flatMap passRecords)
+
+/-- **Round trip, file ending at the last pass's type-1 marker** (premature end of file is handled silently by
+`yield_tif_blocks`): same result as `bit_roundtrip`. -/
+theorem bit_roundtrip_one_end_marker (ps : List PassC) (hwf : ∀ p ∈ ps, p.wf) (hsize : (encodeNoFinal ps).length < 2 ^ 32) :
+    readBIT (encodeNoFinal ps) = .ok (expectedFrom 0 ps) := by
+  unfold readBIT
+  have hfuel : (ps.flatMap passRecords).length < (encodeNoFinal ps).length + 1 := by
+    have := layout_length_ge (ps.flatMap passRecords) 0 0
+    unfold encodeNoFinal
+    omega
+  have htypes : ∀ r ∈ ps.flatMap passRecords, r.1 < 2 ^ 32 := by
+    intro r hr
+    exact fileRecords_types ps r (by simp [fileRecords, hr])
+  have hw := walk_layout (ps.flatMap passRecords) ((encodeNoFinal ps).length + 1) 0 0 ⟨0, 0, 0, 0⟩ hfuel rfl
+    (by simpa [encodeNoFinal] using hsize) (by decide) htypes
+  unfold encodeNoFinal at hw ⊢
+  rw [hw]
+  simp only []
+  have hc : ∀ (qs : List PassC) (pt : Nat), classify pt (qs.flatMap passRecords) = qs.flatMap passBlocks ++ [⟨.endFile, []⟩] := by
+    intro qs
+    induction qs with
+    | nil => intro pt; simp [classify]
+    | cons q qs ih => intro pt; rw [List.flatMap_cons, classify_pass, ih]; simp
+  rw [hc]
+  simpa using consume_passes ps [] hwf
+
+example : readBIT (encodeNoFinal [exPass]) = .ok (expectedFrom 0 [exPass]) :=
+  bit_roundtrip_one_end_marker [exPass] (by intro p hp; simp at hp; subst hp; exact exPass_wf) (by decide +kernel)
+
 example : (encode [exPass]).length = 360 := by decide +kernel
 example : frames exPass = 3 := by decide +kernel
 example : (xSpec (exPass.range.map ibmWord) 3).map Fl.toRat = [14950, 14950 - 1/4, 14950 - 1/2] := by decide +kernel
